@@ -42,6 +42,73 @@ if w.get("op") == "join":
         bad.append(f"join(mA={mA}, mB={mB}, mult={kw.get('mult')}) has multiplicity {r.mult}, expected {want_m}")
     if r.n_atoms != 4 or r.n_bonds != 3:
         bad.append(f"product has {r.n_atoms} atoms / {r.n_bonds} bonds")
+    # full contract on randomly built fragments: attachment point at any position of either fragment
+    rng = np.random.default_rng(5)
+    for trial in range(60):
+        if bad:
+            break
+        frs = []
+        for tag in "AB":
+            n = int(rng.integers(3, 6))
+            m = ml.Molecule(charge=int(rng.integers(-1, 2)), mult=1)
+            for i in range(n):
+                m.add_atom(ml.Atom(str(rng.choice(["C", "N", "O", "F", "S"])), label=f"{tag}{i}"), rng.uniform(-3, 3, size=3), float(rng.uniform(-1, 1)))
+            for i in range(1, n):
+                m.connect(int(rng.integers(0, i)), i)
+            # a leaf becomes the attachment point
+            deg = [m.n_bonds_with_atom(a) for a in m.atoms]
+            leaves = [i for i, d in enumerate(deg) if d == 1]
+            ap = m.atoms[int(rng.choice(leaves))]
+            ap.atype = ml.AtomType.AttachmentPoint
+            ap.element = ml.Element.Unknown
+            frs.append((m, ap))
+        (A, apA), (B, apB) = frs
+        nbA, nbB = next(A.connected_atoms(apA)), next(B.connected_atoms(apB))
+        lblA, lblB = nbA.label, nbB.label
+        A0, B0 = A.coords.copy(), B.coords.copy()
+        vA = A.get_atom_coord(apA) - A.get_atom_coord(nbA)
+        dist = float(rng.uniform(1.0, 2.0))
+        try:
+            r = ml.Molecule.join(A, B, apA, apB, dist=dist, optimize_rotation=False)
+        except BaseException as ex:
+            bad.append(f"join raised {type(ex).__name__}: {ex}")
+            break
+        if r.n_atoms != A.n_atoms + B.n_atoms - 2 or r.n_bonds != A.n_bonds + B.n_bonds - 1:
+            bad.append(f"product has {r.n_atoms} atoms / {r.n_bonds} bonds from {A.n_atoms}+{B.n_atoms} atoms")
+            break
+        if not (np.array_equal(A.coords, A0) and np.array_equal(B.coords, B0) and A.n_bonds == A.n_atoms - 1 and B.n_bonds == B.n_atoms - 1):
+            bad.append("join modified a source fragment")
+            break
+        la = {a.label: a for a in r.atoms}
+        if len(la) != r.n_atoms or apA.label in la or apB.label in la:
+            bad.append("product atoms are not exactly the non-attachment atoms of the fragments")
+            break
+        want = set()
+        for src in (A, B):
+            for b in src.bonds:
+                if b.a1.atype != ml.AtomType.AttachmentPoint and b.a2.atype != ml.AtomType.AttachmentPoint:
+                    want.add(frozenset((b.a1.label, b.a2.label)))
+        want.add(frozenset((lblA, lblB)))
+        got = {frozenset((b.a1.label, b.a2.label)) for b in r.bonds}
+        if got != want:
+            bad.append(f"bonds of the product differ from internal bonds + one new bond {lblA}-{lblB}: extra {sorted(map(sorted, got - want))} missing {sorted(map(sorted, want - got))}")
+            break
+        pa, pb = r.get_atom_coord(la[lblA]), r.get_atom_coord(la[lblB])
+        if abs(np.linalg.norm(pb - pa) - dist) > 1e-6:
+            bad.append(f"new bond length {np.linalg.norm(pb - pa):.4f}, requested {dist:.4f}")
+            break
+        if np.linalg.norm(np.cross(pb - pa, vA)) > 1e-6 * np.linalg.norm(vA) or np.dot(pb - pa, vA) <= 0:
+            bad.append("new bond does not point along A's attachment direction")
+            break
+        for src in (A, B):
+            idx = [la[a.label] for a in src.atoms if a.atype != ml.AtomType.AttachmentPoint]
+            s0 = np.array([src.get_atom_coord(a) for a in src.atoms if a.atype != ml.AtomType.AttachmentPoint])
+            s1 = np.array([r.get_atom_coord(a) for a in idx])
+            d0 = np.linalg.norm(s0[:, None] - s0[None], axis=-1)
+            d1 = np.linalg.norm(s1[:, None] - s1[None], axis=-1)
+            if not np.allclose(d0, d1, atol=1e-6):
+                bad.append("a fragment was deformed by join")
+                break
 elif w.get("op") == "purity":
     A, B = frag(True, 0, 1, np.zeros(3)), frag(False, 0, 1, np.zeros(3))
     # make B's attachment vector exactly parallel to A's: the rotation then takes the antiparallel branch
